@@ -62,10 +62,18 @@ def suspend_ticks(tier="quick"):
     expr = suspend_expr()
     res.encoded.append(f"Container.suspend_container: _suspend_ticks_left = {X.src(expr)}")
     # translator self-test on the repository's own example (100 GB) and boundary witnesses
+    fpx_ok = True
     for (ram, tp) in ((100.0, 1), (100.0, 1000), (10.0, 1), (1.0, 15), (25.0, 1), (0.25, 100), (37.5, 7)):
         dom = A.FPX()
         env, _ = container_env(dom, tp, 1, dom.lift(0.0), dom.lift(0.0), None, ram=dom.lift(ram))
-        enc = z3.simplify(A.ev(expr, env).t).as_signed_long()
+        try:
+            enc = z3.simplify(A.ev(expr, env).t).as_signed_long()
+        except A.Unsupported as e:
+            # the bit-exact domain cannot express this source (e.g. round(x, n)); the RLX encoding below can, and every
+            # RLX model is replayed on the real container before anything is reported
+            res.notes.append(f"bit-exact self-test skipped: {e}")
+            fpx_ok = False
+            break
         real = observe_suspend(ram, tp)
         if real is not None and enc != real and not (enc <= 0 and real is None):
             return res.out("inconclusive", f"translator self-test: encoding says {enc} ticks, real container {real} (ram={ram}, tps={tp})")
@@ -94,7 +102,17 @@ def suspend_ticks(tier="quick"):
         if rep:
             return res.out("violated", rep, {"replay": {"kind": "kn", "func": "vf.kernels.c10:replay_suspend", "args": dict(ram=rv, tps=tp)}})
         # bit-exact search at concrete rates
-        for tp in ([1, 3, 10, 15, 100, 1000] if tier == "thorough" else [1, 15, 1000]):
+        # the model may sit in the rounding zone of a boundary: look for a robust one (off by a whole tick)
+        gross = z3.Or(nr > x * (1 + tol) + 1, x * (1 - tol) > nr + 2)
+        for extra in ([tps.t == 1000], [tps.t == 100], [tps.t == 10], []):
+            r3, m3 = solve(res, dom.side + rng + [z3.Not(spec), gross, n.t >= 2] + extra, 30000)
+            if r3 == "sat":
+                rv = float(A.real_to_fraction(m3, ram.t))
+                tp = int(A.real_to_fraction(m3, tps.t))
+                rep = replay_suspend(rv, tp)
+                if rep:
+                    return res.out("violated", rep, {"replay": {"kind": "kn", "func": "vf.kernels.c10:replay_suspend", "args": dict(ram=rv, tps=tp)}})
+        for tp in (([1, 3, 10, 15, 100, 1000] if tier == "thorough" else [1, 15, 1000]) if fpx_ok else []):
             d2 = A.FPX()
             rm = d2.float_var("ram")
             e2, _ = container_env(d2, tp, 1, d2.lift(0.0), d2.lift(0.0), None, ram=rm)
